@@ -201,6 +201,42 @@ FindersClauses(e) == LET c == e.call  R == e.obs.runs IN
         C("finders_agree_despite_type_guess", ~AllPathBacked(c.search) \/ TypeComplete(c.search) \/ ~FindList(R[1].L, c.search).pre \/
                            \A k \in DOMAIN R[1].finders : R[1].finders[k].err # "" \/ ToSet(R[1].finders[k].res) = ToSet(R[1].finders[1].res)) >>
 
+\* ---- C12 (Sid part): exists / children / siblings on the materialised universe
+SidReadsClauses(e) == LET idx == UIdx[FALSE][e.call.univ]  x == ResolveFirst(e.call.segs)  o == e.obs IN
+  << C("noraise", o.exists.raised = "" /\ o.children.raised = "" /\ o.siblings.raised = ""),
+     C("exists", o.exists.value = ExistsSid(idx, x)),
+     C("children", ToSet(o.children.res) = ChildrenOf(idx, x) /\ Cardinality(ToSet(o.children.res)) = Len(o.children.res)),
+     C("siblings", ToSet(o.siblings.res) = SiblingsOf(idx, x) /\ Cardinality(ToSet(o.siblings.res)) = Len(o.siblings.res)),
+     C("children_have_me_as_parent", \A i \in DOMAIN o.children.res : Front(o.children.res[i]) = e.call.segs),
+     C("leaf_no_children", x.type = "" \/ KeyType(x) # LeafKeyOf(BaseType(x)) \/ o.children.res = <<>>),
+     C("parent_closed", \A i \in DOMAIN o.L : Len(o.L[i]) = 1 \/ \E n \in 1..(Len(o.L[i]) - 1) : SubSeq(o.L[i], 1, n) \in ToSet(o.L)) >>
+
+\* ---- C16: a Getter yields one record per found Sid, in the same order
+RecSet(r) == {<<r[i][1], r[i][2]>> : i \in DOMAIN r}
+ExpectedRec(c, segs) ==
+  LET d == SideDataOf(segs)
+      sidv == IF c.enc = "str" THEN {JoinStr(segs, "/")}
+              ELSE IF c.enc = "uri" THEN {u.type \o ":" \o JoinStr(segs, "/") : u \in {v \in Unfold(c.search).res : MatchSegs(Star(v.segs), segs)}}
+              ELSE {}
+      full(sv) == {<<d[i][1], d[i][2]>> : i \in DOMAIN d} \cup (IF c.enc = "none" THEN {} ELSE {<<"sid", sv>>})
+      pick(S) == IF c.attrs = <<>> THEN S
+                 ELSE {<<c.attrs[k], IF \E p \in S : p[1] = c.attrs[k] THEN (CHOOSE p \in S : p[1] = c.attrs[k])[2] ELSE None>> : k \in DOMAIN c.attrs}
+  IN IF c.enc = "none" THEN {pick(full(""))} ELSE {pick(full(sv)) : sv \in sidv}
+GetterClauses(e) == LET c == e.call  o == e.obs  idx == UIdx[FALSE][c.univ]
+                        us == Unfold(c.search).res
+                        x == FindPaths(DefaultCfg, idx[DefaultCfg], c.search) IN
+  << C("noraise", o.raised = ""),
+     C("find_is_model", ~x.pre \/ x.err # "" \/ ToSet(o.found) = x.res),
+     C("one_per_found", Len(o.got) = Len(o.found)),
+     C("same_order_and_data", Len(o.got) # Len(o.found) \/ \A i \in DOMAIN o.got : RecSet(o.got[i]) \in ExpectedRec(c, o.found[i])),
+     C("keys_exactly_attrs", c.attrs = <<>> \/ \A i \in DOMAIN o.got : [k \in DOMAIN o.got[i] |-> o.got[i][k][1]] = c.attrs),
+     C("get_one", (o.found = <<>> /\ o.get_one = <<>>) \/ (o.found # <<>> /\ o.got # <<>> /\ o.get_one = o.got[1])),
+     C("get_data_of_first", o.found = <<>> \/ RecSet(o.get_data) \in ExpectedRec(c, o.found[1])),
+     C("get_attr", o.found = <<>> \/ o.get_attr = (IF SideDataOf(o.found[1]) = <<>> THEN None ELSE SideDataOf(o.found[1])[1][2])),
+     C("getfromall", x.sorted \/ x.err # "" \/
+          {JoinStr(r, "/") : r \in UNION {AllHits(idx, u) : u \in {v \in us : GetterOf(v.type) # ""}}} = ToSet(o.all_sids)),
+     C("getfromall_count", x.sorted \/ x.err # "" \/ Cardinality(ToSet(o.all_sids)) <= Len(o.all_sids)) >>
+
 Clauses(e) ==
   IF "raised" \in DOMAIN e.obs /\ StrStarts(e.obs.raised, "HARNESS") THEN << C("harness", FALSE) >>
   ELSE CASE e.call.op = "sid"     -> SidClauses(e)
@@ -216,6 +252,8 @@ Clauses(e) ==
          [] e.call.op = "extrapolate" -> ExtrapolateClauses(e)
          [] e.call.op = "topath"  -> ToPathClauses(e)
          [] e.call.op = "finders" -> FindersClauses(e)
+         [] e.call.op = "sidreads" -> SidReadsClauses(e)
+         [] e.call.op = "getter" -> GetterClauses(e)
          [] e.call.op = "frompath" -> FromPathClauses(e)
          [] OTHER -> << C("unknown_op", FALSE) >>
 
@@ -244,6 +282,10 @@ Tag(e) ==
         "finders:" \o (IF AllPathBacked(e.call.search) THEN "pathbacked:" ELSE "mixed:")
                    \o (IF x.err # "" THEN "error" ELSE IF ~x.pre THEN "gt-precondition-false"
                        ELSE (IF x.sorted THEN "gt:" ELSE "star:") \o (IF x.res = {} THEN "nothing" ELSE "found"))
+  ELSE IF e.call.op = "sidreads" THEN LET x == ResolveFirst(e.call.segs) IN
+        "sidreads:" \o (IF x.type = "" THEN "untyped" ELSE IF ExistsSid(UIdx[FALSE][e.call.univ], x) THEN "exists:" ELSE "missing:") \o x.type
+  ELSE IF e.call.op = "getter" THEN "getter:" \o e.call.enc \o ":" \o (IF e.call.attrs = <<>> THEN "all" ELSE "attrs") \o ":" \o
+        (IF e.obs.found = <<>> THEN "nothing" ELSE IF Len(e.obs.found) = 1 THEN "one" ELSE "many")
   ELSE e.call.op
 Bump(cov, t) == [x \in DOMAIN cov \cup {t} |-> IF x = t THEN (IF t \in DOMAIN cov THEN cov[t] + 1 ELSE 1) ELSE cov[x]]
 Failed(e) == SelectSeq(Clauses(e), LAMBDA c : ~c[2])
